@@ -44,6 +44,25 @@ CHECKS.update({
             "unused-result dataflow + loop/arm path rules on MIR via rustc_private driver"),
 })
 
+CHECKS.update({
+    "C02": ("Taint analysis from caller strings to raw appends (with derived sinks for private helpers and a who-may-write closure over "
+            "the clean wrapper types); path-sensitive separator/member typestate with per-variant callee summaries and snapshot rollback "
+            "over every buffer-appending region; dominance of the validation verdict over every use of the writer; newline framing of the "
+            "last vectored buffer. All paths of the formatter, every configuration-independent clause; grammar of runtime prefixes not decided.",
+            "§4 C02", "taint dataflow + typestate simulation (ESP-style) + dominance on MIR via rustc_private driver"),
+    "C03": ("Provenance rules: every written count carries the sampling multiplicity (saturating), threaded unchanged from the format "
+            "call; definition/value buffers share one owner; skipped metrics are rolled back and never declared; both emission branches "
+            "replicate every namespace. Structural clauses only; numbers are runtime values.", "§4 C03",
+            "def-use provenance + dominance/rollback path rules on MIR via rustc_private driver"),
+    "C08": ("Constant propagation of the validation switches through the constructor chain on two compiled configurations (debug "
+            "assertions on and off); member-emission => uniqueness-registration pairing over all emission sites; verdict before bytes; "
+            "control-dependence regions of the validation switches contain no output effects. One known finding (F4) is listed.",
+            "§4 C08", "inter-procedural constant propagation on two build profiles + pairing / control-dependence rules on MIR"),
+    "C12": ("Predicate normalisation of the sampling decision (emit <=> draw <= rate, same rate origin passed on), guard dominance for "
+            "non-positive/NaN rates, who-may-write rule for stored congressional rates (1.0 or min(.,1.0)). Expectation/budget claims are "
+            "numeric and not decided.", "§4 C12", "branch-condition provenance + who-may-write on MIR via rustc_private driver"),
+})
+
 NA_PENDING = {}
 
 def main():
